@@ -72,8 +72,17 @@ type Case struct {
 	Coded json.RawMessage `json:"coded"`
 	Fired []string        `json:"fired"`
 	// when the as-coded answer is an error: the answer / firing quirks of the mechanism without the error quirks
-	Coded2 json.RawMessage `json:"coded2"`
-	Fired2 []string        `json:"fired2"`
+	// (the optional answers are lists of 0 or 1 answer; none = the same as the answer before: coded2 as coded, mut as
+	// coded, mut2 as mut)
+	Coded2 []json.RawMessage `json:"coded2"`
+	Fired2 []string          `json:"fired2"`
+	// the mechanism with EVERY quirk of the specification, those the code no longer has (MC_ProfSeries!Repaired) included:
+	// where a repaired quirk would fire and what a code base that has it again answers; mut2 / mutfired2 without the
+	// error quirks when mut is an error
+	Mut       []json.RawMessage `json:"mut"`
+	MutFired  []string          `json:"mutfired"`
+	Mut2      []json.RawMessage `json:"mut2"`
+	MutFired2 []string          `json:"mutfired2"`
 }
 
 // answers of the specification
@@ -128,7 +137,7 @@ type StatsAns struct {
 
 type Mismatch struct {
 	Signature string      `json:"signature"`
-	Kind      string      `json:"kind"` // "quirk" (equals the as-coded prediction) | "unexplained"
+	Kind      string      `json:"kind"` // "quirk" (equals the as-coded prediction) | "repaired_quirk" (equals the prediction with a quirk the code is believed not to have any more) | "unexplained"
 	Quirk     string      `json:"quirk,omitempty"`
 	Endpoint  string      `json:"endpoint"`
 	Cfg       string      `json:"cfg"`
@@ -151,7 +160,7 @@ type Result struct {
 	NonTrivial     int                    `json:"distinct_nontrivial"`
 	Agree          int                    `json:"answers_equal_definition"`
 	Classes        map[string]int         `json:"classes"`
-	FiredCases     map[string]int         `json:"fired_cases"`    // quirk -> exported cases in which TLC found it firing
+	FiredCases     map[string]int         `json:"fired_cases"`    // quirk -> exported cases in which TLC found it firing (as coded, or with every quirk)
 	FiredObserved  map[string]int         `json:"fired_observed"` // quirk -> of those, the real code showed the as-coded answer
 	FiredSilent    map[string]int         `json:"fired_silent"`   // quirk -> of those, the real code answered the definition
 	MismatchCounts map[string]int         `json:"mismatch_counts"`
